@@ -66,7 +66,7 @@ fn main() {
 			rule: "derived-signing-key offers with an injected offer_metadata record; every case is non-trivial",
 			quick_cases: 200,
 			thorough_cases: 2_000,
-			max_shrink: 1000,
+			max_shrink: 4000,
 		},
 		b12::strat_metadata_injection(),
 		b12::oracle_metadata_injection,
@@ -77,7 +77,7 @@ fn main() {
 			rule: "offers / invoices built from Durations with a sub-second part; every case is non-trivial",
 			quick_cases: 200,
 			thorough_cases: 2_000,
-			max_shrink: 1000,
+			max_shrink: 4000,
 		},
 		b12::strat_subsec(),
 		b12::oracle_subsec,
